@@ -50,6 +50,9 @@ def test_body(rng, kind):
         return f"helper_loop({r.randint(1, 5)})", False
     if kind == "unbound":
         return "let q = nosuchvariable + 1", False
+    if kind == "heavy_pass":
+        n = r.randint(3000, 7000)
+        return f"let i = 0 while i < {n} {{ i += 1 }} assert(i == {n})", True
     if kind == "shadow_pass":
         return "let helper_ok = fun(x) { x + 100 } assert(helper_ok(1) == 101)", True
     if kind == "closure_error":
@@ -58,7 +61,7 @@ def test_body(rng, kind):
 
 
 KINDS = ["pass", "pass", "pass", "assert_fail", "throw_deep", "throw_in_blocks", "param_type", "return_type",
-         "match_nonexhaustive", "loop_error", "unbound", "shadow_pass", "closure_error"]
+         "match_nonexhaustive", "loop_error", "unbound", "shadow_pass", "closure_error", "heavy_pass"]
 
 
 def parse_output(stdout):
@@ -98,7 +101,7 @@ class C26:
             "in the other order, (e) with a Ctrl-C injected at step k (VERIF_FAULTS). evaluations = child processes. "
             "distinct_nontrivial = distinct (pool, order, selection / fault) runs in which at least one test failed before "
             "another test ran (so the recovery between tests was exercised) or an interrupt landed")
-    expected_probes = ["failing_then_later_test", "interrupt_landed_in_test", "two_files", "same_name_in_two_files", "subset_selection",
+    expected_probes = ["failing_then_later_test", "interrupt_landed_in_test", "two_files", "same_name_in_two_files", "sandboxed_test_mode", "subset_selection",
                        "selection_none", "alone_runs"]
     real_components = ["the real garden binary (`garden test`), including eval_tests / pop_to_toplevel between tests and "
                        "the exit-status logic; hook H2 only counts steps and sets the Ctrl-C flag at step k when asked"]
@@ -133,7 +136,8 @@ class C26:
             if pairs:
                 dup = list(r.choice(pairs))
         subset = r.choice(["t0", "t1", "_pass", "_throw", "assert", "zzz_none", "t"])
-        return {"pool": pool, "order": order, "split": split, "subset": subset, "dup": dup, "fault_k": r.randint(1, 150),
+        return {"pool": pool, "order": order, "split": split, "subset": subset, "dup": dup, "sandboxed": r.chance(0.5),
+                "fault_k": r.randint(1, 150),
                 "token": f"{r.u64():016x}"}
 
     def files(self, case, swap=False, dup=False):
@@ -179,6 +183,38 @@ class C26:
             res["fault_log"] = open(log).read() if os.path.exists(log) else ""
             res["run_order"] = [i for f in fs for i in f[2]]
             return res
+        finally:
+            w.cleanup()
+
+    def run_sandboxed(self, ctx, case, only=None, reverse=False):
+        """`garden sandboxed-test <file> <offset>`: the offset selects the test it lies in, or all tests
+        when it lies in none.  Returns {test name: description} or None."""
+        ctx["n"] += 1
+        root = os.path.join(ctx["dir"], f"run{ctx['n']:06d}")
+        os.makedirs(root)
+        w = worldsim.World(root, case["token"])
+        try:
+            order = list(case["order"])
+            if reverse:
+                order.reverse()
+            src = HELPERS
+            offsets = {}
+            for i in order:
+                t = case["pool"][i]
+                offsets[t["name"]] = len(src.encode()) + 6
+                src += f"test {t['name']} {{\n  {t['body']}\n}}\n\n"
+            src += "// end of file\n"
+            w.write("tests_s.gdn", src)
+            off = offsets[only] if only is not None else len(src.encode()) - 3
+            res = worldsim.run_child([common.BIN, "sandboxed-test", "tests_s.gdn", str(off)], w.dir, w.env(),
+                                     stdin_mode="closed", cpu_s=60, wall_s=120)
+            if res["signal"] is not None or res["rc"] == 101 or res["killed"]:
+                return None, f"rc {res['rc']} signal {res['signal']} killed {res['killed']}: {res['stderr'][-200:]!r}"
+            try:
+                d = json.loads(res["stdout"].strip().splitlines()[-1])
+                return {k: v.get("description") for k, v in d.get("tests", {}).items()}, None
+            except Exception:
+                return None, f"no JSON summary: {res['stdout'][:200]!r}"
         finally:
             w.cleanup()
 
@@ -299,6 +335,45 @@ class C26:
                 elif (res["rc"] != 0) != (exp_failed > 0):
                     viol.append(("exit-status", f"{what}: exit status {res['rc']} with {exp_failed} failing test(s)"))
             out["nontrivial"].append(mix(pool_hash, "dupname", str(case["dup"])))
+        # (g) the same pool under `sandboxed-test` (the IDE's runner: tick and stack limits, sandbox):
+        # each test alone (offset inside it) against all of them (offset in no test), both file orders
+        viol_s = []
+        if case.get("sandboxed") and not viol:
+            s_alone = {}
+            for t in pool:
+                got, err = self.run_sandboxed(ctx, case, only=t["name"])
+                out["evaluations"] += 1
+                if got is None:
+                    viol_s.append(("crashed", f"sandboxed-test on {t['name']} alone: {err}"))
+                    break
+                if list(got) != [t["name"]]:
+                    viol_s.append(("selection", f"sandboxed-test with the offset inside {t['name']} ran {sorted(got)}"))
+                    break
+                s_alone[t["name"]] = got[t["name"]]
+            if len(s_alone) == len(pool):
+                bump("probe:sandboxed_test_mode")
+                for rev in (False, True):
+                    got, err = self.run_sandboxed(ctx, case, reverse=rev)
+                    out["evaluations"] += 1
+                    what = "sandboxed-test, all tests" + (" (reverse order)" if rev else "")
+                    if got is None:
+                        viol_s.append(("crashed", f"{what}: {err}"))
+                        break
+                    if sorted(got) != sorted(names):
+                        viol_s.append(("selection", f"{what}: reported {sorted(got)}, the file has {sorted(names)}"))
+                        break
+                    diff = [n for n in names if got[n] != s_alone[n]]
+                    if diff:
+                        n0 = diff[0]
+                        if all(got[n] == "exceeded resource limit" for n in diff):
+                            cls = "sandboxed:tick-budget-shared-between-tests"
+                            bump("probe:sandboxed_budget_exhausted_by_earlier_tests")
+                        else:
+                            cls = "sandboxed:verdict-depends-on-context"
+                        viol_s.append((cls, f"{what}: test {n0} is reported `{got[n0]}` but `{s_alone[n0]}` when it is the only "
+                                          f"test run (differing tests: {diff})"))
+                        break
+                out["nontrivial"].append(mix(pool_hash, "sandboxed"))
         # (e) Ctrl-C at step k
         res = self.run(ctx, case, fault=case["fault_k"])
         out["evaluations"] += 1
@@ -336,6 +411,7 @@ class C26:
                         b = failed.get(n)
                         if (a is None) != (b is None):
                             viol.append(("verdict-depends-on-context", f"with a later Ctrl-C, test {n} changed verdict"))
+        viol += viol_s  # judged last, so that a known finding there cannot hide anything else
         for cls, detail in viol[:1]:
             out["violations"].append({"class": cls, "key": f"C26:{cls}", "detail": detail, "replay": {"case": case}})
         out["sample"] = {"tests": [(t["name"], t["body"][:80]) for t in pool[:6]], "order": order_names,
